@@ -365,8 +365,8 @@ def extract_item(spec, contracts, log):
     elif contract.strip():
         raise ExtractError("contract on non-fn item " + what)
 
-    if mode != 'trusted':
-        for S in spec.get('subst', []):
+    if True:
+        for S in (spec.get('subst', []) if mode != 'trusted' else spec.get('sig_subst', [])):
             cnt = S.get('count', 1)
             frm = S['from']
             idxs = []
@@ -415,11 +415,18 @@ def extract_item(spec, contracts, log):
 
     pre = spec.get('pre', '')
     out = ''
+    body_text = segs.text()
+    renames = spec.get('rename', [])
+    for (a, b) in renames:
+        # identifier rename (whole-word / whole-path); logged per item
+        body_text, k = re.subn(r'(?<![A-Za-z0-9_:])' + re.escape(a) + r'(?![A-Za-z0-9_])', b, body_text)
+        if k == 0:
+            raise ExtractError("lost anchor: rename %r matches nothing in %s" % (a, what))
     if mode == 'trusted':
         out += '#[verifier::external_body]\n'
     if pre:
         out += pre.rstrip() + '\n'
-    out += segs.text() + '\n'
+    out += body_text + '\n'
     wrap = spec['wrap'] if 'wrap' in spec else (inside if (inside and is_fn) else None)
     if wrap:
         w = wrap.rstrip()
@@ -437,6 +444,7 @@ def extract_item(spec, contracts, log):
             {'from': p[2][:80], 'to': p[1][:80]} for p in segs.parts if p[0] == 'SUB' and mode != 'trusted'
         ],
         'body_dropped': mode == 'trusted',
+        'renames': [list(r) for r in renames],
     })
     return out, line_no
 
